@@ -56,6 +56,63 @@ impl Frame {
     }
 }
 
+/// Cuts a transfer that does not fit into one frame into the transfers that each fill one
+/// frame, in the same way [`FrameEncoder`] would cut it while encoding.
+///
+/// Every transfer frame carries an implicit transfer-id and takes one unit of the peer's
+/// incoming-window, so the session has to see the frames one by one to keep its
+/// next-outgoing-id and remote-incoming-window in step with what goes on the wire.
+///
+/// The delivery-id is assigned by the session after the cut, so a transfer that carries a
+/// delivery-tag but no delivery-id yet is measured with the widest delivery-id.
+pub(crate) fn split_transfer(
+    mut transfer: Transfer,
+    mut payload: Payload,
+    max_frame_body_size: usize,
+) -> Result<Vec<(Transfer, Payload)>, serde_amqp::Error> {
+    fn encoded_len(transfer: &Transfer) -> Result<usize, serde_amqp::Error> {
+        if transfer.delivery_tag.is_some() && transfer.delivery_id.is_none() {
+            let mut transfer = transfer.clone();
+            transfer.delivery_id = Some(u32::MAX);
+            serde_amqp::to_vec(&transfer).map(|buf| buf.len())
+        } else {
+            serde_amqp::to_vec(transfer).map(|buf| buf.len())
+        }
+    }
+
+    let whole_len = encoded_len(&transfer)?;
+    if whole_len.saturating_add(payload.len()) <= max_frame_body_size {
+        return Ok(vec![(transfer, payload)]);
+    }
+
+    let orig_more = transfer.more; // If the transfer is pre-split at link
+    transfer.more = true;
+    let first_len = encoded_len(&transfer)?;
+    let mut rest = transfer.clone();
+    rest.delivery_id = None;
+    rest.delivery_tag = None;
+    rest.message_format = None;
+    rest.settled = None;
+    rest.rcv_settle_mode = None;
+    let rest_len = encoded_len(&rest)?;
+    if first_len >= max_frame_body_size || rest_len >= max_frame_body_size {
+        // The performative alone fills a frame: leave it to the encoder
+        transfer.more = orig_more;
+        return Ok(vec![(transfer, payload)]);
+    }
+
+    let mut frames = Vec::new();
+    let partial = payload.split_to(std::cmp::min(max_frame_body_size - first_len, payload.len()));
+    frames.push((transfer, partial));
+    while rest_len + payload.len() > max_frame_body_size {
+        let partial = payload.split_to(max_frame_body_size - rest_len);
+        frames.push((rest.clone(), partial));
+    }
+    rest.more = orig_more;
+    frames.push((rest, payload));
+    Ok(frames)
+}
+
 /// Encoder of the AMQP frames
 #[derive(Debug)]
 pub struct FrameEncoder {
